@@ -684,6 +684,9 @@ class Cell(Numbered_MCNP_Object):
             # check if adding to end of comment: a comment runs to the end of its line
             if self._is_comment_line(last_line) or "$" in last_line:
                 return ret + "\n" + " " * BLANK_SPACE_CONTINUE
+            # a line that ends in the continuation mark "&" has to stay the end of its line
+            if last_line.rstrip().endswith("&"):
+                return ret + "\n" + " " * BLANK_SPACE_CONTINUE
             if not last_line[-1].isspace():
                 return ret + " "
             return ret
